@@ -667,6 +667,16 @@ def validation_before_imports(index: RepoIndex, rep, rule: str) -> None:
               src(top[0]) if top else 'schemas', 'a schema table is built from a registry at '
               'import time: types registered later (custom modules) are not part of it',
               'schema tables are registry-independent')
+    # a schema validates, it does not repair: a converting validator (`Use(int)`) turns a
+    # malformed entry (a shape of 8.5) into a different, valid one instead of rejecting it
+    uses = [n for n in ast.walk(mod.tree) if isinstance(n, ast.Call)
+            and src(n.func).split('.')[-1] == 'Use']
+    for n in uses:
+        rep.violation(rule, rel, '<module>', n.lineno, src(n)[:80],
+                      f'the schema converts with `{src(n)[:60]}`: a malformed value is silently '
+                      f'turned into another one (a non-integral shape is truncated) and a '
+                      f'different environment is built instead of the file being rejected')
+    rep.holds(rule, f'{rel}:<module>:Use', f'{len(uses)} converting validators')
     # the premise: validation comes first in the entry point
     fe = index.func('gym_gridverse/envs/yaml/factory.py', 'factory_env_from_data')
     w = walk_function(fe.node)
